@@ -519,23 +519,17 @@ func verifC27ReachCells(cells []verifC27Cell) {
 //	band 0 "values": one change; 1..3 columns; column values of every kind SQLite can hand over
 //	       (NULL, integer, real, text, blob; empty text and blob), rotated through the columns
 //	       (quick) or chosen independently per column for 1..2 columns (thorough); symbolic row ids,
-//	       integers, text and blob bytes; row-ids-only on/off; no filter.
-//	band 1 "tables": 2 (quick) / 3 (thorough) changes of any operation on any of three tables with
-//	       one integer column, symbolic ids and values; every filter of the table (none, three that
-//	       split the tables differently; thorough also one that matches nothing); row-ids-only on/off.
+//	       integers, text and blob bytes; row-ids-only on/off (quick: on with one row shape); no filter.
+//	band 1 "tables": 2 (quick) / 3 (thorough; the third one's operation is derived) changes of any
+//	       operation on any of three tables with one integer column, symbolic ids and values; every
+//	       filter of the table (none, three that split the tables differently; thorough also one
+//	       that matches nothing); row-ids-only on/off (quick: on only without a filter).
 func VerifC27Hook() {
 	verifPanicsAreViolations()
 	thorough := verifTier() == 1
 	band := verifChoice("band", 2)
-	idsOnly := verifChoice("idsOnly", 2) == 1
 	filter, nc, n := 0, 1, 1
-	independent := false
-	if band == 0 {
-		nc = 1 + verifChoice("columns", 3)
-		if thorough && nc <= 2 {
-			independent = verifChoice("independent", 2) == 1
-		}
-	} else {
+	if band == 1 {
 		n = 2
 		nf := 4
 		if thorough {
@@ -543,17 +537,40 @@ func VerifC27Hook() {
 		}
 		filter = verifChoice("filter", nf)
 	}
+	// quick: row-ids-only is combined with "no filter" only, and (band values) with one fixed row shape
+	idsOnly := false
+	if thorough || filter == 0 {
+		idsOnly = verifChoice("idsOnly", 2) == 1
+	}
+	independent := false
+	if band == 0 {
+		nc = 1 + verifChoice("columns", 3)
+		if thorough && nc <= 2 && !idsOnly {
+			independent = verifChoice("independent", 2) == 1
+		}
+	}
+	shape := func(prefix string) []int {
+		if idsOnly && !thorough {
+			return verifC27Rotation(1, nc)
+		}
+		return verifC27Variants(prefix, nc, independent)
+	}
 	evs := make([]*verifC27Ev, n)
 	for i := range evs {
 		p := verifName("e", i)
-		ev := &verifC27Ev{op: verifChoice(p+".op", 3)}
+		ev := &verifC27Ev{}
+		if i < 2 {
+			ev.op = verifChoice(p+".op", 3)
+		} else {
+			ev.op = (evs[0].op + evs[1].op + 1) % 3 // third change (thorough): operation derived
+		}
 		if band == 1 {
 			ev.table = verifChoice(p+".table", 3)
 		}
 		if ev.op != voInsert {
 			ev.oldID = verifI64(p + ".oldID")
 			if band == 0 {
-				ev.old = verifC27Cells(p+".old", nc, verifC27Variants(p+".old", nc, independent))
+				ev.old = verifC27Cells(p+".old", nc, shape(p+".old"))
 			} else {
 				ev.old = verifC27Cells(p+".old", 1, []int{vvInt})
 			}
@@ -561,7 +578,7 @@ func VerifC27Hook() {
 		if ev.op != voDelete {
 			ev.newID = verifI64(p + ".newID")
 			if band == 0 {
-				ev.new = verifC27Cells(p+".new", nc, verifC27Variants(p+".new", nc, independent))
+				ev.new = verifC27Cells(p+".new", nc, shape(p+".new"))
 			} else {
 				ev.new = verifC27Cells(p+".new", 1, []int{vvInt})
 			}
@@ -878,7 +895,12 @@ func VerifC27Chain() {
 			// row ids are concrete and pairwise distinct (the rows must be in place before the first
 			// BEGIN of the native run), the one integer column holds concrete, pairwise distinct
 			// values; the first change of a transaction is on foo, the second on bar
-			ev := &verifC27Ev{op: verifChoice(q+".op", 3), table: i}
+			ev := &verifC27Ev{table: i}
+			if i == 0 || ntx == 2 {
+				ev.op = verifChoice(q+".op", 3)
+			} else {
+				ev.op = (txs[t].evs[0].op + 1 + t) % 3 // thorough: the second change's operation is derived
+			}
 			id := int64(10 + 4*g)
 			if ev.op != voInsert {
 				ev.oldID = id
